@@ -24,6 +24,14 @@ from . import enc
 from . import evtypes as ET
 
 
+import dataclasses as _dc
+
+#: the tree under test keeps the suspended invocation's attempt record in the waiter (it does since the repair of
+#: C08/handler_entered_beyond_budget:lineage_suspended_in_wait; an older tree is still generated for, without records)
+WAITER_HAS_RECORD = {"attempts", "first_attempt_at", "last_exception", "last_failed_at", "recovery_counts"} <= {
+    f.name for f in _dc.fields(R.StepWorkerWaiter)}
+
+
 class OraclePolicy:
     """Retry policy whose decisions are scripted; records calls for the oracle table."""
 
@@ -88,7 +96,7 @@ class Gen:
                             last_exception=rng.choice([None, ET.Boom("e3")]),
                             last_failed_at=rng.choice([None, 995.0]), recovery_counts=self.rc(hn))
 
-    def waiter(self, wid: str | None = None) -> R.StepWorkerWaiter:
+    def waiter(self, wid: str | None = None, hn: list[str] | None = None) -> R.StepWorkerWaiter:
         rng = self.rng
         wty = rng.choice([5, 6, 7, 3])
         reqs = {} if rng.random() < 0.5 else {"k": rng.choice([1, 2])}
@@ -96,9 +104,15 @@ class Gen:
         if rng.random() < 0.3:
             resolved = ET.mk(wty, self.fresh(), reqs.get("k"))
         has_req = bool(reqs) or (rng.random() < 0.15)
+        # the attempt record of the invocation suspended in the wait (retry counters, recovery counts of its lineage)
+        rec: dict[str, Any] = {}
+        if WAITER_HAS_RECORD and rng.random() < 0.6:
+            rec = dict(attempts=rng.choice([0, 0, 1, 2]), first_attempt_at=rng.choice([None, 0.0, 990.0, 995.0, 1000.0]),
+                       last_exception=rng.choice([None, ET.Boom("e2")]), last_failed_at=rng.choice([None, 996.0]),
+                       recovery_counts=self.rc(hn or []))
         return R.StepWorkerWaiter(waiter_id=wid or f"w{rng.randint(0, 4):02d}", event=self.event(rng.choice([0, 5, 6])),
                                   waiting_for_event=ET.TYPES[wty], requirements=reqs, has_requirements=has_req,
-                                  resolved_event=resolved, timed_out=(resolved is None and rng.random() < 0.15))
+                                  resolved_event=resolved, timed_out=(resolved is None and rng.random() < 0.15), **rec)
 
     def collected(self) -> dict[str, list]:
         rng = self.rng
@@ -147,7 +161,7 @@ class Gen:
             waiters = []
             used: set[str] = set()
             for _ in range(rng.choice([0, 0, 1, 2, 3])):
-                w = self.waiter()
+                w = self.waiter(hn=hn)
                 if w.waiter_id in used and not illformed:
                     continue
                 used.add(w.waiter_id)
